@@ -36,6 +36,8 @@ EXPLANATION += ' Added: (R8) the quantity whose deviation from 1 is compared wit
 TECHNIQUE += '; evaluation of the correction cascade with scripted predicate outcomes'
 EXPLANATION += " Added: (R9) the cascade as a whole is interpreted with a scripted norm predicate and stubbed correction helpers in ~20 scenarios (restricted / unrestricted x which attempt first passes x none x optional helpers not applicable): stored basis and coefficients are the ones that passed the check made with the caller's threshold, a warning iff corrected, LoadError when nothing helps."
 TRUSTED = ["CPython ast parser", "copy.deepcopy / attrs.evolve return new objects"]
+EXPLANATION += " Added: (R10) each basis-correction helper, evaluated on abstract two-primitive shells, rescales every primitive of a shell it touches or none; (R11) the Molden reader's tag branch gives every tag line the meaning the format assigns (finite-domain evaluation)."
+TECHNIQUE += '; accessor evaluation of the correction helpers; finite-domain evaluation of the tag branch'
 
 
 def static_len(e):
@@ -57,7 +59,7 @@ def static_len(e):
 
 def run(ctx):
     prog = ctx.prog
-    ctx.clauses_decided = ["R1 both loaders go through the cascade", "R2 accept only after a norm check of the stored values", "R3 unfixable => LoadError", "R4 every correction is announced", "R5 vendor factor lists well-formed", "R6 corrections copy", "R7 every shell reaches the correction", "R8 norm expression (symbolic)", "R9 cascade semantics (evaluated)", "R10 helper uniformity (evaluated)", "R11 Molden tag meaning (finite-domain evaluation)"]
+    ctx.clauses_decided = ["R1 both loaders go through the cascade", "R2 accept only after a norm check of the stored values", "R3 unfixable => LoadError", "R4 every correction is announced", "R5 vendor factor lists well-formed", "R6 corrections copy", "R7 every shell reaches the correction", "R8 norm expression (symbolic)", "R9 cascade semantics (evaluated)", "R10 helper uniformity (evaluated)", "R11 Molden tag meaning (finite-domain evaluation)", "R12 Molden [Atoms] unit keyword (evaluated)"]
     ctx.clauses_declined = ["which branch a given file takes", "orthonormality of corrected orbitals", "numerical content of the vendor factors"]
     lo_molden = prog.func("iodata.formats.molden.load_one")
     lo_molekel = prog.func("iodata.formats.molekel.load_one")
@@ -350,6 +352,10 @@ def run(ctx):
     from .c01 import check_molden_reader_tags
 
     check_molden_reader_tags(ctx, ConstEval(prog), "R11")
+    ctx.rule("R12", "Molden: the unit keyword of the [Atoms] line selects the coordinate factor (evaluated on every spelling)", "`[Atoms] (Angs)` coordinates are taken as bohr: all inter-atomic overlaps are wrong, no correction of the cascade passes and a standard-conforming file is rejected")
+    from .c04 import check_molden_atoms_unit
+
+    check_molden_atoms_unit(ctx, "R12")
 
 
 def check_norm_expression(ctx, pred):
